@@ -312,9 +312,9 @@ impl TransactionGuard {
     pub(crate) fn allocate_read(
         tracker: Arc<TransactionTracker>,
         mem: &TransactionalMemory,
-    ) -> Result<Self> {
-        let id = tracker.register_read_transaction(mem)?;
-        Ok(Self::new_read(id, tracker))
+    ) -> Result<(Self, Option<BtreeHeader>)> {
+        let (id, root) = tracker.register_read_transaction_with_root(mem)?;
+        Ok((Self::new_read(id, tracker), root))
     }
 
     pub(crate) fn new_write(
@@ -558,12 +558,13 @@ impl Sealed for Database {}
 
 impl ReadableDatabase for Database {
     fn begin_read(&self) -> Result<ReadTransaction, TransactionError> {
-        let guard = TransactionGuard::allocate_read(self.transaction_tracker.clone(), &self.mem)?;
+        let (guard, root) =
+            TransactionGuard::allocate_read(self.transaction_tracker.clone(), &self.mem)?;
         #[cfg(redb_verif)]
         crate::verif::pause("read.registered");
         #[cfg(feature = "logging")]
         debug!("Beginning read transaction id={:?}", guard.id());
-        ReadTransaction::new(self.get_memory(), guard)
+        ReadTransaction::new_with_root(self.get_memory(), guard, root)
     }
 
     fn cache_stats(&self) -> CacheStats {
